@@ -49,6 +49,12 @@ def arming_rules(ctx, tag, side):
             kr2 = P.root(P._field(('agg', g.id, i, j), key_field))
             ok = bool(kr2) and all(r == ('call', g.id, bb) for r, _ in kr2)
         R.ob(tag + '.arm', (side + ' table insert', 'entry remembers its timer key'), ok, 'the entry stores the key of the timer armed for it', [g.loc(t)])
+    for g, bb, t in arms:
+        owners = [b2 for b2, t2 in g.calls() if callee_is(t2, 'hash_map::VacantEntry::insert', 'HashMap::insert', 'hash_map::Entry::or_insert', 'hash_map::Entry::or_insert_with')]
+        ok = bool(owners) and cfg.all_paths_pass(g, bb, cfg.exits(g), set(owners))
+        R.ob(tag + '.arm', (side + ' table insert', 'an armed timer always gets an owning entry'), ok,
+             'on every path after arming the timer the entry that stores its key is inserted: no timer is left armed for an id whose registration was refused (it would later fire on another request with that id)',
+             [g.loc(t)])
     return table, ins, arms
 
 
